@@ -63,6 +63,12 @@ catalogue! {
     #[openapi(component)]
     struct C1 { items: Vec<C2>, one: C2, #[serde(skip_serializing_if = "Vec::is_empty", default)] tags: Vec<String> }
 
+    struct Owner { name: String, id: u32, nick: Option<String> }
+
+    struct Ticket { title: String, #[serde(flatten)] owner: Owner }
+
+    struct Ticket2 { title: String, #[serde(flatten)] owner: Option<Owner> }
+
     struct S10 { o1: Option<String>, #[serde(default, skip_serializing_if = "Option::is_none")] o2: Option<Inner>, v: Vec<i32> }
 }
 
@@ -90,6 +96,12 @@ catalogue_enums! {
 
     #[serde(untagged)]
     enum E5 { StructV { field_one: i32 }, NewT(String), TupleV(i32, u8) }
+
+    #[serde(tag = "kind")]
+    enum U5 { FooBar, Baz }
+
+    #[serde(tag = "t", content = "c", rename_all = "kebab-case")]
+    enum U6 { FooBar, Baz }
 
     #[serde(untagged)]
     enum E5u { StructV { field_one: i32 }, UnitOne }
@@ -143,6 +155,9 @@ fn all() -> Vec<Value> {
     out.push(entry("S9", s(nx()), vec![S9(5, "five".into())]));
     out.push(entry("C2", s(nx()), vec![C2 { v: 2.5 }]));
     out.push(entry("C1", s(nx()), vec![C1 { items: vec![C2 { v: 1.0 }], one: C2 { v: 0.0 }, tags: vec!["t".into()] }, C1::default()]));
+    out.push(entry("Owner", s(nx()), vec![Owner { name: "n".into(), id: 1, nick: None }]));
+    out.push(entry("Ticket", s(nx()), vec![Ticket { title: "t".into(), owner: Owner { name: "n".into(), id: 1, nick: Some("k".into()) } }]));
+    out.push(entry("Ticket2", s(nx()), vec![Ticket2 { title: "t".into(), owner: Some(Owner { name: "n".into(), id: 1, nick: Some("k".into()) }) }, Ticket2 { title: "t".into(), owner: None }]));
     out.push(entry("S10", s(nx()), vec![S10 { o1: Some("s".into()), o2: Some(inner()), v: vec![1, 2] }, S10::default()]));
     let mut j = 0usize;
     let mut ne = || { j += 1; j - 1 };
@@ -154,6 +169,8 @@ fn all() -> Vec<Value> {
     out.push(entry("E3", e(ne()), vec![E3::UnitOne, E3::StructV { field_one: 2 }, E3::NewT(inner()), E3::Shout { field_two: 1 }]));
     out.push(entry("E4", e(ne()), vec![E4::UnitOne, E4::NewT(inner()), E4::TupleV(1, "s".into()), E4::StructV { field_one: 3 }]));
     out.push(entry("E5", e(ne()), vec![E5::StructV { field_one: 1 }, E5::NewT("s".into()), E5::TupleV(1, 7)]));
+    out.push(entry("U5", e(ne()), vec![U5::FooBar, U5::Baz]));
+    out.push(entry("U6", e(ne()), vec![U6::FooBar, U6::Baz]));
     out.push(entry("E5u", e(ne()), vec![E5u::StructV { field_one: 1 }, E5u::UnitOne]));
     out.push(entry("E6", e(ne()), vec![E6::A { field_one: 1, field_two: 2 }, E6::C { x: 1 }, E6::D]));
     out
